@@ -11,7 +11,7 @@
    ([sig_of] = function of key and signed entity), so a retry after an ambiguous failure, or after
    a crash between publish and mark (PubAmbig followed by R), re-sends THE SAME signature;
    what is unique is the distinct signature per (entity, beacon) and the acknowledged request. *)
-From MV Require Import Base.Prelude Base.Machine Gen.Consts C17.Model C20.Model C20.Proofs.
+From MV Require Import Base.Prelude Base.Machine Gen.Consts C17.Model C20.Model C20.Proofs C20.Progress.
 Open Scope N_scope.
 
 (* the offsets: recording - retrieval = signing (over the constants generated from epoch.rs), the
@@ -91,9 +91,85 @@ Theorem C20_restart_resumes : forall c evs e i1 b1 r1 p1 i2 b2 r2 p2,
   st w' = Ready e /\ atts w' = atts w /\ regs w' = regs w /\ signed w' = signed w /\ inits w' = inits w.
 Proof. exact restart_resumes_run. Qed.
 
+(* ---------- registration: key agreement and progress ---------- *)
+
+(* every protocol initializer the signer has stored was sent to the aggregator in a register-signer
+   request the aggregator acknowledged, made during the epoch before its recording epoch; and a
+   signer in one of the two registered states of epoch e holds such a key for the recording epoch
+   of e *)
+Theorem C20_stored_keys_were_acknowledged : forall c evs, wf 0 evs ->
+  (forall k, In k (inits (run c evs)) ->
+     exists r, In (k, r) (regs (run c evs)) /\ k = recording_epoch r) /\
+  (forall e, st (run c evs) = Ready e \/ st (run c evs) = RNATS e ->
+     In (recording_epoch e) (inits (run c evs)) /\ In (recording_epoch e, e) (regs (run c evs))).
+Proof. exact stored_keys_acknowledged. Qed.
+
+(* ... and, as long as the aggregator does not lose a registration it acknowledged (no RegDrop
+   event), every stored key is the one the aggregator holds for that recording epoch *)
+Theorem C20_stored_keys_are_recorded : forall c evs, no_drop evs ->
+  forall k, In k (inits (run c evs)) -> In k (agg_me (run c evs)).
+Proof. exact run_keys_agree. Qed.
+
+(* at most one acknowledged registration per recording epoch (any history, restarts included) *)
+Theorem C20_registers_once_per_epoch : forall c evs,
+  NoDup (map fst (regs (run c evs))).
+Proof. intros c evs. apply (run_regs_ok c evs). Qed.
+
+(* progress: from Unregistered(e), ONE cycle in which the aggregator is reachable, up to date and
+   its registration round is open ends in a registered state with a stored key for the recording
+   epoch of e; unless that key was stored earlier, the request was sent in this cycle and recorded
+   by the aggregator; the state is ReadyToSign exactly when the key of e is held on both sides *)
+Theorem C20_open_round_registers : forall c evs e ce imm blk p,
+  st (run c evs) = Unreg e -> signer_key_epoch e = Ok ce ->
+  let w := run c evs in
+  let w' := run c (evs ++ [T e imm blk 0 false RegOpen p]) in
+  (st w' = Ready e \/ st w' = RNATS e) /\
+  In (recording_epoch e) (inits w') /\
+  (In (recording_epoch e) (inits w) \/
+   In (recording_epoch e, e) (regs w') /\ In (recording_epoch e) (agg_me w')) /\
+  (st w' = Ready e <-> In ce (inits w) /\ In ce (agg_me w)).
+Proof. intros c evs e ce imm blk p H1 H2. cbv zeta. rewrite run_snoc. apply register_progress; assumption. Qed.
+
+(* progress: a signer that is Unregistered(E) and holds, for the key epoch k of E, an initializer
+   the aggregator also holds, and an initializer for the next key epoch, is ReadyToSign(E) after one
+   undisturbed cycle and publishes, in the next cycle and whatever the aggregator's registration
+   side does, the first not yet signed entity of the time point with key k (when the lottery is
+   won); an acknowledged publication is marked *)
+Theorem C20_eligible_signer_publishes : forall c evs E k i1 b1 p1 i2 b2 lag2 down2 r2 p2 xs x,
+  let w := run c evs in
+  st w = Unreg E -> signer_key_epoch E = Ok k ->
+  In k (inits w) -> In k (agg_me w) -> In (next_key_epoch E) (inits w) -> won c k = true ->
+  entities_of (ecfg_at c k) (discs_at c k) {| tp_epoch := E; tp_imm := i2; tp_block := b2 |} = Ok xs ->
+  first_unsigned xs (signed w) = Some x ->
+  let w' := run c (evs ++ [T E i1 b1 0 false RegOpen p1; T E i2 b2 lag2 down2 r2 p2]) in
+  atts w' = {| at_ent := x; at_key := k; at_mode := p2 |} :: atts w /\
+  (acked p2 = true -> In x (signed w')) /\ st w' = Ready E.
+Proof. intros. unfold w'. rewrite run_app. eapply eligible_signs; eassumption. Qed.
+
+(* the two together, over a whole history: a registration made in ONE undisturbed cycle of epoch e
+   (round open) is, whatever happens in between (faults, restarts, as long as the aggregator did not
+   lose an acknowledged registration before), the key the signer publishes with as soon as it is
+   Unregistered(E) for the epoch E that retrieves that recording epoch (E = e + SIGNING, see
+   C20_offsets_agree) with the next key registered too *)
+Theorem C20_open_round_signs_two_epochs_later :
+  forall c evs1 evs2 e ce i0 b0 p0 E i1 b1 p1 i2 b2 lag2 down2 r2 p2 xs x,
+  no_drop evs1 ->
+  st (run c evs1) = Unreg e -> signer_key_epoch e = Ok ce ->
+  let w := run c (evs1 ++ T e i0 b0 0 false RegOpen p0 :: evs2) in
+  st w = Unreg E -> signer_key_epoch E = Ok (recording_epoch e) ->
+  In (next_key_epoch E) (inits w) -> won c (recording_epoch e) = true ->
+  entities_of (ecfg_at c (recording_epoch e)) (discs_at c (recording_epoch e))
+              {| tp_epoch := E; tp_imm := i2; tp_block := b2 |} = Ok xs ->
+  first_unsigned xs (signed w) = Some x ->
+  let w' := run_from c w [T E i1 b1 0 false RegOpen p1; T E i2 b2 lag2 down2 r2 p2] in
+  atts w' = {| at_ent := x; at_key := recording_epoch e; at_mode := p2 |} :: atts w /\
+  (acked p2 = true -> In x (signed w')) /\ st w' = Ready E.
+Proof. exact open_round_signs_later. Qed.
+
 (* ---------- non-vacuity ---------- *)
 Definition ex_cfg : config :=
-  {| discs := [MSD; CSD; CDb]; ecfg := {| tx_cfg := None; btx_cfg := None |}; won := fun _ => true |}.
+  {| discs_at := fun _ => [MSD; CSD; CDb]; ecfg_at := fun _ => {| tx_cfg := None; btx_cfg := None |};
+     won := fun _ => true |}.
 (* epochs 1,2,3: registers during 1 and 2, signs during 3 with the key recorded under 2;
    an ambiguous failure, a restart, and the retry of the same signature *)
 Definition ex_evs : list event :=
@@ -113,3 +189,18 @@ Example C20_ex_run :
   signed (run ex_cfg ex_evs) = [EMSD 3] /\
   map fst (regs (run ex_cfg ex_evs)) = [4; 3; 2].
 Proof. vm_compute. repeat split. Qed.
+
+(* the progress theorems' hypotheses are satisfiable: the round is closed at the first attempt of
+   epoch 1, open at the second; the registration of epoch 1 (recorded under 2) signs MSD(3) *)
+Definition ex_evs1 : list event := [ T 1 1 100 0 false RegOpen PubOk; T 1 1 100 0 false RegClosed PubOk ].
+Definition ex_evs2 : list event := [ T 2 1 100 0 false RegOpen PubOk; T 2 1 100 0 false RegOpen PubOk;
+                                     T 3 2 120 0 false RegOpen PubOk ].
+Example C20_ex_progress :
+  no_drop ex_evs1 /\ st (run ex_cfg ex_evs1) = Unreg 1 /\ signer_key_epoch 1 = Ok 0 /\
+  map fst (regs (run ex_cfg ex_evs1)) = [] /\
+  let w := run ex_cfg (ex_evs1 ++ T 1 1 100 0 false RegOpen PubOk :: ex_evs2) in
+  st w = Unreg 3 /\ signer_key_epoch 3 = Ok (recording_epoch 1) /\ In (next_key_epoch 3) (inits w) /\
+  entities_of (ecfg_at ex_cfg 2) (discs_at ex_cfg 2) {| tp_epoch := 3; tp_imm := 2; tp_block := 120 |}
+    = Ok [EMSD 3; ECSD 2; ECDb 3 2] /\
+  first_unsigned [EMSD 3; ECSD 2; ECDb 3 2] (signed w) = Some (EMSD 3).
+Proof. vm_compute. repeat split; auto. Qed.
